@@ -33,11 +33,23 @@ CONSTANTS
                        \*       FALSE: it is chosen once, with the value the flag had when the client was CONSTRUCTED - wrong for the did:web
                        \*       resolver of a node, which vdr.Configure builds before http.Engine.Configure (registered last) switches the flag on
     Builds,            \* when the resolver (and its HTTP client) is constructed relative to strict mode being switched on
-    SlashKeptEncoded,  \* TRUE: "%2F" inside a path segment stays inside that segment of the fetched URL.  FALSE: web.go appends
-                       \*       "/did.json" to URL.Path only, RawPath is lost and the slash becomes a separator
-    EscapedRoundTrip,  \* TRUE: URLToDID re-escapes everything DIDToURL left escaped.  FALSE: only the sub-delims are re-escaped, an
-                       \*       escaped space / non-ASCII octet comes back raw and the result is not a DID
-    HostClasses, PathClasses, Answers, KeyClasses, Metas
+    SlashKeptEncoded,  \* TRUE: "%2F" inside a path segment stays inside that segment of the fetched URL (the tree since the repair of
+                       \*       F18-C18).  FALSE: web.go appends "/did.json" to URL.Path only, RawPath is lost and the slash becomes a separator
+    EscapedRoundTrip,  \* TRUE: URLToDID re-escapes everything DIDToURL left escaped (the tree since the repair of F19-C18: URL.EscapedPath()).
+                       \*       FALSE: it reads the decoded URL.Path and re-escapes only the sub-delims: an escaped space / non-ASCII octet /
+                       \*       '?' / '#' / '%' comes back raw and the result is not a DID, or not the same DID
+    DotSegmentsKept,   \* TRUE: "." and ".." path segments of the identifier reach the server as they are written (the tree: web.go appends
+                       \*       "/did.json" to the path).  FALSE: the path is cleaned before the request (path.Join, ResolveReference ...), the fetch
+                       \*       goes to the location that ANOTHER identifier encodes (did:web:h:a:..:b is fetched from the location of did:web:h:b)
+    CurrentByVersion,  \* TRUE: the current version of a locally managed document is the one with the highest VERSION NUMBER (the tree).
+                       \*       FALSE: the one with the highest timestamp - wrong whenever the wall clock did not grow with the version number
+    FutureVersionsVisible, \* TRUE: every stored version counts.  FALSE: Latest() filters "updated_at <= now + 1h" also when no resolve time is
+                       \*       asked for (the tree): a version written while the clock was more than an hour ahead of the clock at resolution
+                       \*       time does not exist for the resolver
+    HostClasses, PathClasses, Answers, KeyClasses, Metas,
+    Histories,         \* local document histories: the sequence of the timestamps (ranks: equal = same second) of versions 0..n-1 in the
+                       \* did_document_version table; for a deactivated DID the last version is the deactivation (empty document)
+    Aheads             \* which versions carry a timestamp beyond the resolver's "now + 1h" window: "none" | "last" | "all"
 
 (*--------------------------- identifier grammar classes -----------------*)
 \* host part (method specific id up to the first ':'), after one round of percent-decoding
@@ -54,15 +66,20 @@ HostAccepted(h)   == HostIsName(h)       \* util.go: url.Parse ok /\ parsed.Host
 \* path part (':'-separated segments)
 PathRejected(p)   == p \in {"empty", "trailing"}          \* util.go: HasSuffix "/" or Contains "//"
 \* does the fetched path equal the path the identifier encodes?
-PathFetchedAsEncoded(p) == IF p = "pctslash" THEN SlashKeptEncoded ELSE TRUE
+PathFetchedAsEncoded(p) == CASE p = "pctslash" -> SlashKeptEncoded
+                             [] p = "dot"      -> DotSegmentsKept
+                             [] OTHER          -> TRUE
+\* path classes for which a canonicalisation (decoding once more, cleaning dot segments, folding case) yields ANOTHER location on the
+\* same host - on a shared host typically the location of somebody else's DID
+DecoyPathClasses == {"segs", "dot", "pctslash", "dblenc"}
 \* the sub-grammar of the round-trip law: domain name, optional port, segments free of query, fragment and doubly encoded characters
 InSubGrammar(h, p) == /\ h \in {"name", "nameport", "mixedcase"}
                       /\ p \in {"none", "segs", "subdelims", "pctother", "pctslash", "dot"}
 RoundTrips(h, p)  == /\ HostAccepted(h) /\ ~PathRejected(p)
                      /\ h \notin {"lowerhex", "pctalpha", "idn"}   \* not canonical / not expressible: comes back different
                      /\ CASE p = "pctother" -> EscapedRoundTrip
-                          [] p = "pctqf"    -> FALSE      \* '?' and '#' come back raw: not a DID
-                          [] p = "dblenc"   -> FALSE      \* "%25" is decoded by url.Parse and never re-encoded
+                          [] p = "pctqf"    -> EscapedRoundTrip   \* read from the decoded path '?' and '#' come back raw: not a DID
+                          [] p = "dblenc"   -> EscapedRoundTrip   \* read from the decoded path "%25" comes back as "%": another DID
                           [] OTHER          -> TRUE
 
 (*--------------------------- server answer classes ----------------------*)
@@ -82,7 +99,7 @@ AnswerIdMatches(a) == a \notin {"id-mismatch", "id-missing"}
 
 (*--------------------------- one resolution ------------------------------*)
 VARIABLES
-    c,        \* the case: [m, host, path, ans, local, meta, key]
+    c,        \* the case: [m, host, path, ans, local, meta, key, built, site, hist, ahead]
     pc,       \* control point
     fetches,  \* set of origins [scheme, host, path] an HTTP request was sent to
     outcome,  \* "none" | "doc" | "error"
@@ -95,11 +112,24 @@ VARIABLES
 vars == <<c, pc, fetches, outcome, docid, why, rt, flag, atBuild>>
 
 NA == "na"
-WebRemote  == [m : {"web"}, host : HostClasses, path : PathClasses, ans : Answers, local : {"none"}, meta : {"nil"}, key : {NA}, built : Builds]
-\* DIDs managed by this node always have the shape <root did>:iam:<uuid>
-WebManaged == [m : {"web"}, host : {"name"}, path : {"segs"}, ans : Answers, local : {"active", "deactivated"}, meta : Metas, key : {NA}, built : Builds]
-Pure       == [m : {"jwk", "key"}, host : {NA}, path : {NA}, ans : {NA}, local : {"none"}, meta : Metas, key : KeyClasses, built : Builds]
-Cases      == WebRemote \cup WebManaged \cup Pure
+NoHist == [site : {"enc"}, hist : {<<>>}, ahead : {"none"}]
+X(A, B) == {a @@ b : a \in A, b \in B}     \* records of A extended with the fields of B
+WebRemote  == X([m : {"web"}, host : HostClasses, path : PathClasses, ans : Answers, local : {"none"}, meta : {"nil"}, key : {NA}, built : Builds], NoHist)
+\* WHO SERVES WHAT WHERE.  site = "decoy": the location the identifier encodes answers 404; the answer c.ans (a well-formed document that
+\* carries the requested id) is available only at the location(s) a canonicalisation of the path leads to.
+WebDecoy   == [m : {"web"}, host : HostClasses, path : DecoyPathClasses \cap PathClasses, ans : {"ok"}, local : {"none"}, meta : {"nil"}, key : {NA},
+               built : Builds, site : {"decoy"}, hist : {<<>>}, ahead : {"none"}]
+\* DIDs managed by this node always have the shape <root did>:iam:<uuid>.  LOCAL HISTORIES: every weak order of the timestamps of up to
+\* MaxVersions versions (the wall clock may stand still within a second and may be stepped back between two writes); the complete
+\* product with the server answers only for the plain histories (one version / creation + deactivation one tick later).
+Plain(l)   == IF l = "active" THEN <<0>> ELSE <<0, 1>>
+WebManaged == {r \in [m : {"web"}, host : {"name"}, path : {"segs"}, ans : Answers, local : {"active", "deactivated"}, meta : Metas, key : {NA},
+                      built : Builds, site : {"enc"}, hist : Histories, ahead : Aheads] :
+                  /\ r.local = "deactivated" => Len(r.hist) >= 2          \* creation + deactivation at least
+                  /\ r.ans = "ok" \/ (r.hist = Plain(r.local) /\ r.ahead = "none")
+                  /\ r.ahead # "none" => r.hist = <<0, 1>>}               \* clock far ahead at write time: with growing timestamps only
+Pure       == X([m : {"jwk", "key"}, host : {NA}, path : {NA}, ans : {NA}, local : {"none"}, meta : Metas, key : KeyClasses, built : Builds], NoHist)
+Cases      == WebRemote \cup WebDecoy \cup WebManaged \cup Pure
 
 Init == /\ c \in Cases
         /\ pc = "boot1" /\ fetches = {} /\ outcome = "none" /\ docid = "none" /\ why = "" /\ rt = NA
@@ -128,12 +158,22 @@ Route == /\ pc = "route"
                    IF c.key = "valid" THEN Done("doc", "requested", "") ELSE Done("error", "none", "key")
          /\ UNCHANGED <<c, fetches, rt, flag, atBuild>>
 
+\* didsubject/did_document.go Latest(): the versions the resolver can see and the one it takes for the current one
+AheadOfClock(i) == c.ahead = "all" \/ (c.ahead = "last" /\ i = Len(c.hist))
+VisibleVersions == {i \in 1..Len(c.hist) : FutureVersionsVisible \/ ~AheadOfClock(i)}
+Newer(i, j)     == IF CurrentByVersion THEN i > j
+                   ELSE c.hist[i] > c.hist[j] \/ (c.hist[i] = c.hist[j] /\ i > j)
+CurrentVersion  == CHOOSE i \in VisibleVersions : \A j \in VisibleVersions \ {i} : Newer(i, j)
+\* the last operation on a deactivated DID is its deactivation: the last version is the empty document
+CurrentIsDeactivation == c.local = "deactivated" /\ CurrentVersion = Len(c.hist)
+
 \* didsubject/resolver.go, first element of the chain; only ErrNotFound falls through to the web resolver
 Local == /\ pc = "local"
-         /\ CASE c.local = "none"        -> pc' = "parse" /\ UNCHANGED <<outcome, docid, why>>
-              [] c.local = "active"      -> Done("doc", "requested", "")
-              [] c.local = "deactivated" -> IF c.meta = "true" THEN Done("doc", "requested", "")
-                                                               ELSE Done("error", "none", "deactivated")
+         /\ IF c.local = "none" \/ VisibleVersions = {}
+              THEN pc' = "parse" /\ UNCHANGED <<outcome, docid, why>>
+              ELSE IF ~CurrentIsDeactivation \/ c.meta = "true"
+                     THEN Done("doc", "requested", "")
+                     ELSE Done("error", "none", "deactivated")
          /\ UNCHANGED <<c, fetches, rt, flag, atBuild>>
 
 \* didweb/util.go DIDToURL (and the round trip through URLToDID, evaluated on the side)
@@ -144,12 +184,15 @@ Parse == /\ pc = "parse"
               ELSE Done("error", "none", "identifier")
          /\ UNCHANGED <<c, fetches, flag, atBuild>>
 
+\* the answer the first request gets: on a "decoy" site the encoded location has nothing (404), the document is elsewhere
+Seen == IF c.site = "decoy" /\ PathFetchedAsEncoded(c.path) THEN "status-err" ELSE c.ans
+
 \* web.go + StrictHTTPClient.Do: the first request always goes to https://<host>/<path>/did.json
 Fetch == /\ pc = "fetch"
          /\ fetches' = fetches \cup {[scheme |-> "https", host |-> "enc",
                                       path |-> IF PathFetchedAsEncoded(c.path) THEN "enc" ELSE "other"]}
-         /\ IF IsRedirect(c.ans)
-              THEN IF RedirectLeaves(c.ans) /\ RedirectRefused(c.ans, PolicyStrict)
+         /\ IF IsRedirect(Seen)
+              THEN IF RedirectLeaves(Seen) /\ RedirectRefused(Seen, PolicyStrict)
                      THEN Done("error", "none", "redirect")
                      ELSE pc' = "follow" /\ UNCHANGED <<outcome, docid, why>>
               ELSE pc' = "check" /\ UNCHANGED <<outcome, docid, why>>
@@ -162,8 +205,8 @@ Follow == /\ pc = "follow"
           /\ UNCHANGED <<c, rt, flag, atBuild>>
 
 Check == /\ pc = "check"
-         /\ IF AnswerYieldsDoc(c.ans) THEN Done("doc", "requested", "")
-            ELSE Done("error", "none", IF AnswerIdMatches(c.ans) THEN "answer" ELSE "id")
+         /\ IF AnswerYieldsDoc(Seen) THEN Done("doc", "requested", "")
+            ELSE Done("error", "none", IF AnswerIdMatches(Seen) THEN "answer" ELSE "id")
          /\ UNCHANGED <<c, fetches, rt, flag, atBuild>>
 
 Next == Boot1 \/ Boot2 \/ Route \/ Local \/ Parse \/ Fetch \/ Follow \/ Check
@@ -185,6 +228,8 @@ MismatchRejected == (Terminal /\ c.m = "web" /\ c.local = "none" /\ ~AnswerIdMat
 \* did:web documents are fetched only over HTTPS from the host and path that the identifier encodes ("moved" = another path on the
 \* same host after a same-origin redirect, which the statement does not exclude)
 FetchOnlyFromEncodedOrigin == \A f \in fetches : f.scheme = "https" /\ f.host = "enc" /\ f.path \in {"enc", "moved"}
+\* ... and only a document that IS at the encoded location can be the result: one that exists only where a canonicalised path leads is not found
+ResolvedOnlyFromEncodedLocation == (Terminal /\ c.site = "decoy") => outcome # "doc"
 \* never an IP address, user-info (or a host part that is no host name at all)
 NeverIpOrUserinfo == (c.m = "web" /\ c.local = "none" /\ (HostIsIP(c.host) \/ HostIsUserinfo(c.host) \/ HostIsIllegal(c.host)))
                         => (fetches = {} /\ outcome # "doc")
@@ -192,6 +237,10 @@ NeverIpOrUserinfo == (c.m = "web" /\ c.local = "none" /\ (HostIsIP(c.host) \/ Ho
 ManagedResolvesWithoutNetwork == c.local # "none" => fetches = {}
 \* a deactivated DID does not resolve unless the caller explicitly allows it
 DeactivatedNeedsOptIn == (c.local = "deactivated" /\ c.meta # "true") => outcome # "doc"
+\* the two statements about managed DIDs for histories whose timestamps are within the resolver's window (what the tree guarantees;
+\* FutureVersionsVisible = FALSE is the deviation for the rest)
+ManagedNoNetworkClockSane == c.ahead = "none" => ManagedResolvesWithoutNetwork
+DeactivatedNeedsOptInClockSane == c.ahead = "none" => DeactivatedNeedsOptIn
 \* did:jwk and did:key documents are a function of the identifier alone
 PureMethods == c.m \in {"jwk", "key"} => (fetches = {} /\ (outcome = "doc" => docid = "requested"))
 \* DIDToURL / URLToDID round-trip on the stated sub-grammar
@@ -201,4 +250,6 @@ RoundTrip == (rt # NA /\ InSubGrammar(c.host, c.path)) => rt = "ok"
 WitnessDoc        == ~(Terminal /\ outcome = "doc" /\ c.m = "web" /\ c.local = "none")
 WitnessRedirect   == ~(Terminal /\ c.ans = "redir-samehost" /\ Cardinality(fetches) = 2)
 WitnessDeactivated == ~(Terminal /\ c.local = "deactivated" /\ outcome = "doc")
+WitnessSteppedBack == ~(Terminal /\ c.local = "deactivated" /\ c.meta = "nil" /\ outcome = "error" /\ \E i \in 1..(Len(c.hist) - 1) : c.hist[i] > c.hist[Len(c.hist)])
+WitnessDecoy       == ~(Terminal /\ c.site = "decoy" /\ c.path = "dot" /\ fetches # {} /\ outcome = "error")
 =============================================================================
